@@ -272,4 +272,37 @@ def validatePrivilege (unprivileged has needs : Bool) : Bool :=
   | true, false, true => false
   | true, true, true => false
 
+/-! ## the remaining validators of `build_config` (durations in nanoseconds; bounds from `Gen/Consts.lean`) -/
+
+/-- the effective timing options -/
+structure Timing where
+  readTimeout : Nat
+  minRound : Nat
+  maxRound : Nat
+  grace : Nat
+  refresh : Nat
+  reportCycles : Nat
+  deriving DecidableEq, Repr
+
+/-- `validate_read_timeout`, `validate_round_duration`, `validate_grace_duration`, `validate_tui_refresh_rate`,
+`validate_report_cycles`, in the order `build_config` calls them: `true` = all accepted -/
+def validateTiming (t : Timing) : Bool :=
+  !(t.readTimeout < Consts.tuic_MIN_READ_TIMEOUT_MS || t.readTimeout > Consts.tuic_MAX_READ_TIMEOUT_MS) &&
+  !(t.minRound > t.maxRound) &&
+  !(t.grace < Consts.tuic_MIN_GRACE_DURATION_MS || t.grace > Consts.tuic_MAX_GRACE_DURATION_MS) &&
+  !(t.refresh < Consts.tuic_TUI_MIN_REFRESH_RATE_MS || t.refresh > Consts.tuic_TUI_MAX_REFRESH_RATE_MS) &&
+  !(t.reportCycles == 0)
+
+/-- `validate_flows`: the flows and dot reports need a strategy that distinguishes flows -/
+def validateFlows (mode : OutMode) (s : MStrat) : Bool :=
+  match mode, s with
+  | .flows, .classic | .dot, .classic => false
+  | _, _ => true
+
+/-- `validate_dns`: the system resolver cannot look AS information up -/
+def validateDns (systemResolver asInfo : Bool) : Bool := !(systemResolver && asInfo)
+
+/-- `validate_geoip`: a GeoIP display mode other than off needs a database -/
+def validateGeoip (modeOff haveFile : Bool) : Bool := modeOff || haveFile
+
 end TV.Builder
